@@ -7,6 +7,7 @@ package main
 
 import (
 	"go/ast"
+	"go/token"
 	"go/types"
 	"strings"
 )
@@ -60,9 +61,30 @@ func paramWriteSummary(p *Prog, tgt *Func, depth int) *effSummary {
 	if s, ok := effCache[tgt]; ok {
 		return s
 	}
+	// recursion: the summary is computed to a fixed point, a recursive call standing for
+	// what the previous round found (first round: nothing)
+	prev := &effSummary{ok: true, writes: map[int]bool{}}
+	var s *effSummary
+	for round := 0; round < 4; round++ {
+		effCache[tgt] = prev
+		s = paramWriteSummaryOnce(p, tgt, depth)
+		same := s.ok == prev.ok && len(s.writes) == len(prev.writes)
+		for k := range s.writes {
+			if !prev.writes[k] {
+				same = false
+			}
+		}
+		if same || !s.ok {
+			break
+		}
+		prev = s
+	}
+	effCache[tgt] = s
+	return s
+}
+
+func paramWriteSummaryOnce(p *Prog, tgt *Func, depth int) *effSummary {
 	s := &effSummary{ok: true, writes: map[int]bool{}}
-	effCache[tgt] = &effSummary{ok: false, why: "recursive"} // cycle guard
-	defer func() { effCache[tgt] = s }()
 	if tgt.Body == nil || tgt.Obj == nil {
 		s.ok, s.why = false, "no body"
 		return s
@@ -130,14 +152,101 @@ func paramWriteSummary(p *Prog, tgt *Func, depth int) *effSummary {
 			fail("writes through local reference " + v.Name())
 		}
 	}
+	// a visited-stack: `m[k] = c` directly followed by `defer delete(m, k)` leaves m as it was
+	// when the function returns; a set only ever added to (m[k] = struct{}{} / true) and never
+	// read here is filled commutatively: the order of the calls does not show
+	balanced := map[ast.Node]bool{}
+	for i := 0; i+1 < len(tgt.Body.List); i++ {
+		as, ok := tgt.Body.List[i].(*ast.AssignStmt)
+		df, ok2 := tgt.Body.List[i+1].(*ast.DeferStmt)
+		if !ok || !ok2 || len(as.Lhs) != 1 {
+			continue
+		}
+		ix, ok := ast.Unparen(as.Lhs[0]).(*ast.IndexExpr)
+		if !ok || !isBuiltinCall(info, df.Call, "delete") || len(df.Call.Args) != 2 {
+			continue
+		}
+		if exprStr(df.Call.Args[0]) == exprStr(ix.X) && exprStr(df.Call.Args[1]) == exprStr(ix.Index) {
+			if _, isMap := info.TypeOf(ix.X).Underlying().(*types.Map); isMap {
+				balanced[as], balanced[df] = true, true
+			}
+		}
+	}
+	setOnly := map[types.Object]bool{}
+	notSet := map[types.Object]bool{}
+	isSetInsert := func(as *ast.AssignStmt) types.Object {
+		if len(as.Lhs) != 1 || len(as.Rhs) != 1 || as.Tok != token.ASSIGN {
+			return nil
+		}
+		ix, ok := ast.Unparen(as.Lhs[0]).(*ast.IndexExpr)
+		if !ok {
+			return nil
+		}
+		id, ok := ast.Unparen(ix.X).(*ast.Ident)
+		if !ok {
+			return nil
+		}
+		if _, isMap := info.TypeOf(id).Underlying().(*types.Map); !isMap {
+			return nil
+		}
+		switch r := ast.Unparen(as.Rhs[0]).(type) {
+		case *ast.CompositeLit:
+			if len(r.Elts) != 0 {
+				return nil
+			}
+		case *ast.Ident:
+			if r.Name != "true" {
+				return nil
+			}
+		default:
+			return nil
+		}
+		return info.ObjectOf(id)
+	}
+	// reads of a map parameter (lookups, ranges, len) make its content matter
+	ast.Inspect(tgt.Body, func(n ast.Node) bool {
+		switch x := n.(type) {
+		case *ast.AssignStmt:
+			if o := isSetInsert(x); o != nil && !balanced[x] {
+				setOnly[o] = true
+				return false
+			}
+		case *ast.Ident:
+			if v, ok := info.ObjectOf(x).(*types.Var); ok {
+				if _, isMap := v.Type().Underlying().(*types.Map); isMap {
+					// every other mention (read, pass-through to a call is judged there)
+					if call, isCall := p.Parent(x).(*ast.CallExpr); isCall && call.Fun != ast.Expr(x) {
+						if _, isB := info.Uses[identOf(call.Fun)].(*types.Builtin); !isB {
+							return true
+						}
+					}
+					notSet[v] = true
+				}
+			}
+		}
+		return true
+	})
 	ast.Inspect(tgt.Body, func(n ast.Node) bool {
 		if !s.ok {
 			return false
 		}
 		switch x := n.(type) {
-		case *ast.GoStmt, *ast.DeferStmt, *ast.SendStmt:
+		case *ast.DeferStmt:
+			if balanced[x] {
+				return false
+			}
+			fail("go/defer/send")
+		case *ast.GoStmt, *ast.SendStmt:
 			fail("go/defer/send")
 		case *ast.AssignStmt:
+			if balanced[x] {
+				return false
+			}
+			if o := isSetInsert(x); o != nil && setOnly[o] && !notSet[o] {
+				if _, isP := paramIdx(o); isP {
+					return false // commutative fill of a set parameter
+				}
+			}
 			for _, l := range x.Lhs {
 				write(l)
 			}
